@@ -164,7 +164,7 @@ impl ActorProperties {
             .take()
             .map_or(Err(MessagingErr::ChannelClosed), |prt| {
                 #[cfg(feature = "verif_hooks")]
-                crate::verif::point(crate::verif::PointKind::Channel, "signal.send", 0);
+                crate::verif::point(crate::verif::PointKind::Channel, "signal.send", &self.signal as *const _ as usize);
                 prt.send(signal).map_err(|_| MessagingErr::ChannelClosed)
             })
     }
@@ -174,7 +174,7 @@ impl ActorProperties {
         message: SupervisionEvent,
     ) -> Result<(), MessagingErr<SupervisionEvent>> {
         #[cfg(feature = "verif_hooks")]
-        crate::verif::point(crate::verif::PointKind::Channel, "sup.send", 0);
+        crate::verif::point(crate::verif::PointKind::Channel, "sup.send", &self.supervision as *const _ as usize);
         self.supervision.send(message).map_err(|e| e.into())
     }
 
@@ -221,7 +221,7 @@ impl ActorProperties {
             .box_message(&self.id)
             .map_err(|_e| MessagingErr::InvalidActorType)?;
         #[cfg(feature = "verif_hooks")]
-        crate::verif::point(crate::verif::PointKind::Channel, "msg.send", 0);
+        crate::verif::point(crate::verif::PointKind::Channel, "msg.send", &self.message as *const _ as usize);
         self.message
             .send(MuxedMessage::Message(boxed))
             .map_err(|e| match e.0 {
@@ -273,7 +273,7 @@ impl ActorProperties {
             ) {
                 Ok(_) => {
                     #[cfg(feature = "verif_hooks")]
-                    crate::verif::point(crate::verif::PointKind::Channel, "drain.send", 0);
+                    crate::verif::point(crate::verif::PointKind::Channel, "drain.send", &self.message as *const _ as usize);
                     return self
                         .message
                         .send(MuxedMessage::Drain)
@@ -324,7 +324,7 @@ impl ActorProperties {
             span: None,
         };
         #[cfg(feature = "verif_hooks")]
-        crate::verif::point(crate::verif::PointKind::Channel, "msg.send_serialized", 0);
+        crate::verif::point(crate::verif::PointKind::Channel, "msg.send_serialized", &self.message as *const _ as usize);
         Ok(self
             .message
             .send(MuxedMessage::Message(boxed))
@@ -345,7 +345,7 @@ impl ActorProperties {
             .take()
             .map_or(Err(MessagingErr::ChannelClosed), |prt| {
                 #[cfg(feature = "verif_hooks")]
-                crate::verif::point(crate::verif::PointKind::Channel, "stop.send", 0);
+                crate::verif::point(crate::verif::PointKind::Channel, "stop.send", &self.stop as *const _ as usize);
                 prt.send(msg).map_err(|_| MessagingErr::ChannelClosed)
             })
     }
@@ -363,7 +363,7 @@ impl ActorProperties {
     /// Wait for the actor to exit
     pub(crate) async fn wait(&self) {
         #[cfg(feature = "verif_hooks")]
-        crate::verif::point(crate::verif::PointKind::Notify, "wait.notified", 0);
+        crate::verif::point(crate::verif::PointKind::Notify, "wait.notified", &self.wait_handler as *const _ as usize);
         let notified = self.wait_handler.notified();
         if self.get_status() != ActorStatus::Stopped {
             notified.await;
@@ -382,11 +382,11 @@ impl ActorProperties {
 
     pub(crate) fn notify_stop_listener(&self) {
         #[cfg(feature = "verif_hooks")]
-        crate::verif::point(crate::verif::PointKind::Notify, "wait.notify_waiters", 0);
+        crate::verif::point(crate::verif::PointKind::Notify, "wait.notify_waiters", &self.wait_handler as *const _ as usize);
         self.wait_handler.notify_waiters();
         // Preserve one permit for a waiter created after the actor stopped.
         #[cfg(feature = "verif_hooks")]
-        crate::verif::point(crate::verif::PointKind::Notify, "wait.notify_one", 0);
+        crate::verif::point(crate::verif::PointKind::Notify, "wait.notify_one", &self.wait_handler as *const _ as usize);
         self.wait_handler.notify_one();
     }
 
